@@ -2,6 +2,7 @@ package core
 
 import (
 	"math/rand"
+	"sort"
 
 	"github.com/junioryono/godi/v4"
 	"github.com/junioryono/godi/v4/verifh/pool"
@@ -369,6 +370,31 @@ func appendRemoves(rng *rand.Rand, s *Spec, used map[int]bool, lifes []godi.Life
 				}
 				used[meta.ID] = true
 				s.Regs = append(s.Regs, Reg{Ctor: meta.ID, Life: lifes[rng.Intn(len(lifes))], Name: ik.Key, As: as, Tail: true})
+				break
+			}
+		}
+	}
+	// after the collection shrank: one more member for an existing group (its place in the group
+	// is its identity; anything derived from the size of the collection is stale by now)
+	if rng.Intn(100) < 40 {
+		var gks []GroupKey
+		for gk := range m.Groups {
+			if ti, ok := pool.Types[gk.Type]; ok && !ti.Iface && (typeIndex[gk.Type] != 0 || gk.Type == pool.TypeNames[0]) {
+				gks = append(gks, gk)
+			}
+		}
+		sort.Slice(gks, func(i, j int) bool { return gks[i].Type+"\x00"+gks[i].Group < gks[j].Type+"\x00"+gks[j].Group })
+		if len(gks) > 0 {
+			gk := gks[rng.Intn(len(gks))]
+			// same lifetime class as the existing members keeps the set valid for every consumer
+			life := m.Regs[m.Groups[gk][0].Reg].Life
+			for _, suffix := range []string{"_c", "_b", "_a"} {
+				meta := pool.ByName("Leaf_" + gk.Type + suffix)
+				if used[meta.ID] {
+					continue
+				}
+				used[meta.ID] = true
+				s.Regs = append(s.Regs, Reg{Ctor: meta.ID, Life: life, Group: gk.Group, Tail: true})
 				break
 			}
 		}
